@@ -508,7 +508,7 @@ pub fn run_impl(c: &Case, si: &SchemaInfo, doc: Option<&q::Document>) -> Vec<Str
         "trace" => crate::op_trace::run_trace(&si.doc, doc.unwrap()),
         "strace" => crate::op_trace::run_strace(&si.doc),
         "collect" => crate::op_misc::run_collect(&si.doc, doc.unwrap()),
-        "introspect" => crate::op_introspect::run_introspect_text(c.doc.as_ref().unwrap(), if c.doc.as_ref().unwrap().len() > 20000 { 40 } else { 100000 }),
+        "introspect" => crate::op_introspect::run_introspect_text(c.doc.as_ref().unwrap(), if c.doc.as_ref().unwrap().len() > 20000 { 40 } else { 1500 }),
         "transform" => {
             let p: Vec<u64> = c.extra[0].trim_start_matches("(probe ").trim_end_matches(')').split_whitespace().map(|x| x.parse().unwrap()).collect();
             crate::op_transform::run_transform(doc.unwrap(), p[0], p[1], p[2])
